@@ -51,9 +51,25 @@ class MsgExplore(Explore):
         return label.split(":")[0]
 
 
+# ---- full stack: application messages share the mailbox with the dilation control phases of two really dilating wormholes
+from harness import fullstack as FS  # noqa: E402
+
+FS_CONFIGS = {
+    "fs-2msg-dilating-reorder": dict(app=False, nmsg=(2, 2), reorder=True, max_mdrops=2, stoppable=False),
+}
+
+
+class FMessages(FS.FExplore):
+    configs = FS_CONFIGS
+
+    def violations(self, sim, when):
+        return FS.app_message_violations(sim, when)
+
+
 def jobs(tier):
     from harness.phase_dispatch import PhaseDispatch, HoldBack
-    return [PhaseDispatch(), HoldBack()] + make_jobs(MsgExplore, tier, 2, 3, stepq=8, stept=6) + make_random_jobs(MsgExplore, tier)
+    return [PhaseDispatch(), HoldBack()] + make_jobs(MsgExplore, tier, 2, 3, stepq=8, stept=6) + make_random_jobs(MsgExplore, tier) + \
+        FS.make_jobs(FMessages, tier, 2, 3)
 
 
 ASSUMPTIONS = [
